@@ -634,6 +634,21 @@ def convert_bit_string_value(tokens):
     return value
 
 
+CHARACTER_STRING_TYPES = [
+    'BMPString',
+    'GeneralString',
+    'GraphicString',
+    'IA5String',
+    'NumericString',
+    'PrintableString',
+    'TeletexString',
+    'UTF8String',
+    'UniversalString',
+    'VisibleString',
+    'ObjectDescriptor'
+]
+
+
 def convert_value(tokens, type_=None):
     if type_ == 'INTEGER':
         value = int(tokens[0])
@@ -647,6 +662,8 @@ def convert_value(tokens, type_=None):
                 value.append(convert_number(value_tokens[0]))
     elif type_ == 'BOOLEAN':
         value = (tokens[0] == 'TRUE')
+    elif type_ in CHARACTER_STRING_TYPES and isinstance(tokens[0], str):
+        value = tokens[0]
     elif tokens[0] == 'BitStringValue':
         value = convert_bit_string_value(tokens[0])
     elif isinstance(tokens[0], str):
